@@ -222,7 +222,7 @@ CLAIMED = {
     ),
     "C16": (
         "Coq proof (store = latest packet per slot under arrivals and slot clearings, snapshot = filter over the store: fixpoint, restore-into-same and restore-twice by induction over ANY event history, for ANY routing of packets to slots) + correspondence over OBSERVED slot writes on real gateways + the statement as an oracle on fresh gateways",
-        "9 theorems in coq/props/C16.v about coq/model/M_Snapshot.v (= _MessageDB._handle_msg slot discipline, get_state()'s flatten + "
+        "10 theorems in coq/props/C16.v (C16_snapshot_independent_of_earlier_reads: over the deferred-deletion store of M_StoreDeferred, for ANY interleaving of arrivals, honest reads and loop turns, what is live in a slot -- what a snapshot without expired packets shows -- is a function of the arrivals alone: snapshots taken at earlier prefixes cannot change a later one; implementation side: histories fed packet by packet with snapshots at five prefixes vs a gateway asked once) about coq/model/M_Snapshot.v (= _MessageDB._handle_msg slot discipline, get_state()'s flatten + "
         "wanted_msg + timestamp-keyed dict, _restore_cached_packets as replay): snapshot(replay(snapshot h)) = snapshot h for every "
         "history h of packet arrivals and slot clearings, every routing function and every clock of the fresh gateway not ahead of the "
         "original's; restoring into the gateway that holds the state, and restoring twice, give the same snapshot; a snapshot holds only "
